@@ -221,7 +221,8 @@ def materialise(w, case, hi_byte=0xFF, extra=None):
             rows.append(("0", base + case["m"]))
         lines = [b"site map"]
         for typ, sel in rows:
-            if sel == sel.strip() and "\t" not in sel and "\n" not in sel:
+            if sel == sel.strip() and "\t" not in sel and "\n" not in sel and not any(
+                    bad in sel for bad in ("./", "..", "//", ".\\", "\\\\")):      # Links!SiteOk (incl. Links!Secure)
                 lines.append(typ.encode() + b"x\t" + conc(sel, hi_byte))
         w.write("zm.gophermap", b"\n".join(lines) + b"\n")
     if extra:
